@@ -34,18 +34,19 @@ type Decision struct {
 
 // Outcome of one explored path.
 type Outcome struct {
-	Kind      string // ok | panic | assert | deadlock | unwind | unsupported | infeasible | leak | race
-	Detail    string // panic message / assertion id / loop position
-	Site      string // source position
-	Obs       []string
-	Covers    []string
-	Tags      map[string]bool
-	Model     term.Model
-	Nondets   []NondetRec
-	Dec       []Decision
-	Uncertain bool
-	Trace     []string
-	Steps     int
+	Kind       string // ok | panic | assert | deadlock | unwind | unsupported | infeasible | leak | race
+	Detail     string // panic message / assertion id / loop position
+	Site       string // source position
+	Obs        []string
+	Covers     []string
+	Tags       map[string]bool
+	Model      term.Model
+	Nondets    []NondetRec
+	Dec        []Decision
+	Uncertain  bool
+	Trace      []string
+	Steps      int
+	KnownRaces []string
 }
 
 type NondetRec struct {
@@ -65,6 +66,7 @@ type Config struct {
 	RaceCheck    bool
 	NoIfConv     bool
 	RandChoice   bool
+	KnownRaces   []string // races whose description contains one of these are recorded, not fatal
 }
 
 type Exec struct {
@@ -111,6 +113,7 @@ type Exec struct {
 	views      map[string]*Object
 	regions    map[*ssa.BasicBlock]*regionInfo
 	garbage    map[string]bool
+	knownRaces map[string]bool
 	tickers    map[*Object]*Timer
 
 	// statistics (cumulative)
@@ -436,6 +439,7 @@ func (e *Exec) resetPath(prefix []Decision) {
 	e.now = nil
 	e.tickers = map[*Object]*Timer{}
 	e.garbage = map[string]bool{}
+	e.knownRaces = nil
 	for _, d := range prefix {
 		if d.Uncertain {
 			e.uncertain = true
@@ -490,7 +494,12 @@ func (e *Exec) finish(kind, detail, site string) Outcome {
 	if e.regionBreach != "" && (kind == "ok" || kind == "assert") {
 		// handled at the point of breach; nothing here
 	}
-	o := Outcome{Kind: kind, Detail: detail, Site: site, Covers: e.covers,
+	var kr []string
+	for k := range e.knownRaces {
+		kr = append(kr, k)
+	}
+	sort.Strings(kr)
+	o := Outcome{Kind: kind, Detail: detail, Site: site, Covers: e.covers, KnownRaces: kr,
 		Dec: e.dec, Uncertain: e.uncertain, Trace: e.trace, Steps: e.steps}
 	if kind == "infeasible" {
 		return o
